@@ -525,6 +525,21 @@ pub fn c17(tier: Tier) -> i32 {
                 v.push(("extension-accepted".into(), format!("ciphertext extended by {cut} decrypts")));
             }
         }
+        // the scheme itself, computed independently: same ciphertext, and plaintexts that are a transaction followed by
+        // more bytes (or cut short) authenticate but are not a transaction
+        n += 3;
+        let plain = bitcoin::consensus::serialize(t);
+        if crate::world::aead_encrypt(&plain, k) != ct {
+            v.push(("ciphertext-differs-from-the-documented-scheme".into(), "encrypt(t,k) is not ChaCha20-Poly1305(SHA256(k), 0) of t's serialisation".into()));
+        }
+        let mut longer = plain.clone();
+        longer.push(0);
+        if cryptography::decrypt(&crate::world::aead_encrypt(&longer, k), k).is_ok() {
+            v.push(("trailing-bytes-accepted".into(), "a blob whose plaintext is a transaction followed by another byte decrypts to a transaction".into()));
+        }
+        if cryptography::decrypt(&crate::world::aead_encrypt(&plain[..plain.len() - 1], k), k).is_ok() {
+            v.push(("cut-plaintext-accepted".into(), "a blob whose plaintext is a transaction cut by one byte decrypts to a transaction".into()));
+        }
         // every short prefix (down to nothing: shorter than the authentication tag) fails cleanly
         for len in 0..=33usize.min(ct.len() - 1) {
             n += 1;
